@@ -36,6 +36,36 @@ MANIFEST = {
 }
 
 
+def utf8_valid(bs):
+    """RFC 3629 well-formedness of a byte sequence (terms), written independently of the shadow decoder"""
+    n = len(bs)
+    memo = {}
+
+    def cont(k):
+        return z3.And(bs[k] >= 0x80, bs[k] <= 0xBF)
+
+    def v(i):
+        if i == n:
+            return z3.BoolVal(True)
+        if i in memo:
+            return memo[i]
+        b = bs[i]
+        alts = [z3.And(b <= 0x7F, v(i + 1))]
+        if i + 1 < n:
+            alts.append(z3.And(b >= 0xC2, b <= 0xDF, cont(i + 1), v(i + 2)))
+        if i + 2 < n:
+            alts.append(z3.And(b == 0xE0, bs[i + 1] >= 0xA0, bs[i + 1] <= 0xBF, cont(i + 2), v(i + 3)))
+            alts.append(z3.And(z3.Or(z3.And(b >= 0xE1, b <= 0xEC), b == 0xEE, b == 0xEF), cont(i + 1), cont(i + 2), v(i + 3)))
+            alts.append(z3.And(b == 0xED, bs[i + 1] >= 0x80, bs[i + 1] <= 0x9F, cont(i + 2), v(i + 3)))
+        if i + 3 < n:
+            alts.append(z3.And(b == 0xF0, bs[i + 1] >= 0x90, bs[i + 1] <= 0xBF, cont(i + 2), cont(i + 3), v(i + 4)))
+            alts.append(z3.And(b >= 0xF1, b <= 0xF3, cont(i + 1), cont(i + 2), cont(i + 3), v(i + 4)))
+            alts.append(z3.And(b == 0xF4, bs[i + 1] >= 0x80, bs[i + 1] <= 0x8F, cont(i + 2), cont(i + 3), v(i + 4)))
+        memo[i] = z3.Or(alts)
+        return memo[i]
+    return v(0)
+
+
 def tasks(tier):
     ts = [{"what": w} for w in ("int(double)", "uint(double)", "int(uint)", "uint(int)", "int(int)", "uint(uint)",
                                 "int(string(int))", "uint(string(uint))", "string(string)", "double(double)", "bool(bool)")]
@@ -200,11 +230,15 @@ def _harness(task, runner):
             kd, r = common.outcome(lambda: prog.evaluate({"y": y}))
             if kd == "escape":
                 return [Ob(f"C10/string(bytes)/no-escape@{runner}", z3.BoolVal(False), note=f"{type(r).__name__}: {r}", tags={"exc": type(r).__name__})]
+            valid = utf8_valid(Y)
             if kd == "error":
-                # invalid UTF-8 is an error: the concrete witness is validated against CPython's codec in the replay
-                return [Ob(f"C10/string(bytes)/error@{runner}", z3.BoolVal(True), note="error path (invalid UTF-8 by the RFC 3629 model)")]
+                return [Ob(f"C10/string(bytes)/error-only-invalid-utf8@{runner}", z3.Not(valid), note="an error only for octets that are not valid UTF-8 (RFC 3629)")]
             kd2, r2 = common.outcome(lambda: prog2.evaluate({"y": y}))
-            return [Ob(f"C10/string(bytes)/re-encodes@{runner}", common.truth_term(r2) if kd2 == "value" else z3.BoolVal(False),
+            cs = cterms(r)
+            scalar = z3.And([z3.And(c >= 0, c <= 0x10FFFF, z3.Not(z3.And(c >= 0xD800, c <= 0xDFFF))) for c in cs]) if cs else z3.BoolVal(True)
+            return [Ob(f"C10/string(bytes)/value-only-valid-utf8@{runner}", valid, note="invalid UTF-8 must be an error, never a value"),
+                    Ob(f"C10/string(bytes)/scalar-values@{runner}", scalar, note="the decoded string holds Unicode scalar values only"),
+                    Ob(f"C10/string(bytes)/re-encodes@{runner}", common.truth_term(r2) if kd2 == "value" else z3.BoolVal(False),
                        note="a decoded string encodes back to the same octets (so the value is the UTF-8 reading, not another codec's)")]
         return Harness(id=f"C10/{what}/{n}@{runner}", vars=vars, pre=pre, run=run, witness=lambda vals: W(vals, n=n), max_paths=400)
 
@@ -239,7 +273,8 @@ def _harness(task, runner):
 TS = ["0001-01-01T00:00:00Z", "0001-01-01T00:00:01Z", "0099-12-31T23:59:59Z", "0999-01-01T00:00:00Z", "0999-12-31T23:59:59Z", "1000-01-01T00:00:00Z",
       "1582-10-15T12:00:00Z", "1969-12-31T23:59:59Z", "1970-01-01T00:00:00Z", "2000-02-29T12:34:56Z", "2009-02-13T23:31:30Z", "2038-01-19T03:14:08Z",
       "2100-02-28T23:59:59Z", "9999-12-31T23:59:59Z", "2020-06-30T23:59:59+05:30", "2020-01-01T00:00:00-08:00", "0001-01-02T00:00:00+14:00",
-      "9999-12-30T12:00:00-12:00"]
+      "9999-12-30T12:00:00-12:00", "2020-03-01T00:15:00-03:30", "1999-12-31T23:45:00-09:30", "2021-07-04T00:10:00-00:30", "2010-10-10T10:10:10+05:45",
+      "2015-06-30T23:59:59+12:45", "2000-01-01T00:00:00-00:01", "1985-04-12T23:20:50+00:01"]
 DUR = [0, 1, -1, 59, 60, 3600, 86399, 86400, -86400, 315576000000, -315576000000, 315575999999, 1234567, -7200]
 DBL = [0.0, -0.0, 1.0, -1.5, 0.1, 1e22, 1e23, 5e-324, 1.7976931348623157e308, 2.2250738585072014e-308, 123456789.123456789, 1 / 3,
        9007199254740993.0, 1e-7, 1e16, float("inf"), float("-inf")]
